@@ -139,13 +139,21 @@ def run_learner(case, ctx):
     M = models()
     for name, (mk, kind, methods) in M.items():
         X, y = data(rng, kind)
-        for meth in methods + ["default", "callable"]:
+        for meth in methods + ["default", "callable", "callable-bound-to-another-object"]:
             cfg = {"model": name, "method": meth, "sub": case["sub"]}
             K = "C15/learner/"
             model = mk()
             if meth == "callable":
                 real_method = methods[-1]
                 arg = (lambda m: (lambda Z: getattr(m, real_method)(Z)))(model)
+            elif meth == "callable-bound-to-another-object":
+                # the method of ANOTHER, already trained object (a pre-trained model, a frozen projection): the wrapper
+                # trains its own model and answers with the callable it was given
+                real_method = methods[-1]
+                other_obj = mk()
+                Xo = X * 0.5 + 1.0
+                other_obj.fit(Xo, y) if kind != "tr" else other_obj.fit(Xo)
+                arg = getattr(other_obj, real_method)
             elif meth == "default":
                 arg = None
                 real_method = None
@@ -184,16 +192,20 @@ def run_learner(case, ctx):
                     continue
                 ctx.hit("learner.transparent")
                 exp = as2d(getattr(inner, real_method)(B))
-                if got.shape != exp.shape or not numpy.array_equal(got, exp):
+                chosen = as2d(arg(B)) if meth == "callable-bound-to-another-object" else exp
+                if got.shape != chosen.shape or not numpy.array_equal(got, chosen):
                     ctx.violation(K + "transform-differs/%s" % bname,
-                                  "transform on %s (%d rows): shape %r, the wrapped model's %s gives %r" % (
-                                      bname, len(B), got.shape, real_method, exp.shape), cfg=cfg)
+                                  "transform on %s (%d rows): shape %r, the chosen method (%s) gives %r" % (
+                                      bname, len(B), got.shape, meth if callable(arg) else real_method, chosen.shape),
+                                  cfg=cfg)
                 ref = as2d(getattr(direct, real_method)(B))
                 if ref.shape != exp.shape or not numpy.allclose(ref, exp, rtol=1e-12, atol=1e-12):
                     ctx.violation(K + "not-trained-as-direct-fit", "the wrapped model differs from a directly fitted "
                                   "clone (%s on %s)" % (real_method, bname), cfg=cfg)
                 if exp.shape[1] > 1:
                     ctx.nontriv("learner", cfg, bname)
+            if meth == "callable-bound-to-another-object":
+                continue
             # ---- call sequence on the same wrapper: refused transform, refused fit, fit on other rows (other
             # number of classes / other width): still transparent, still trained as a direct fit
             X2, y2 = data(rng, kind, k=2 if kind == "clf" else None)
@@ -303,6 +315,14 @@ def run_stacking(case, ctx):
         chosen = [pool[rng.randint(len(pool))] for _ in range(size)]
         method = "predict" if kind == "reg" else ["predict", "predict_proba"][rng.randint(2)]
         chosen = [n for n in chosen if M[n][1] == "tr" or method in M[n][2]] or [pool[0]]
+        if trial >= 4:
+            # a first member that lets missing values through, later members that do not (and the reverse order)
+            first = ["DecisionTreeRegressor", "StandardScaler"] if kind == "reg" else ["DecisionTreeClassifier",
+                                                                                       "StandardScaler"]
+            later = ["LinearRegression", "Ridge"] if kind == "reg" else ["LogisticRegression", "GaussianNB"]
+            chosen = [first[rng.randint(2)], later[rng.randint(2)]]
+            if rng.rand() < 0.3:
+                chosen = chosen[::-1]
         X, y = data(rng, kind, k=3 if kind == "clf" else None)
         members = []
         for n in chosen:
@@ -344,6 +364,40 @@ def run_stacking(case, ctx):
             if got.shape != exp.shape or not numpy.array_equal(got, exp):
                 ctx.violation(K + "transform-not-hstack/%s" % bname, "transform on %s: shape %r, hstack of the "
                               "members' outputs has %r" % (bname, got.shape, exp.shape), cfg=cfg)
+        # ---- a batch with a missing value: some members answer it (trees, scalers), some refuse it.  The stacking
+        # is the concatenation of its members' outputs - it answers when all of them do, with exactly their outputs,
+        # and refuses when one of them refuses
+        Bn = numpy.array(X[:6], dtype=float, copy=True)
+        Bn[0, 0] = numpy.nan
+        parts, member_refuses = [], None
+        for orig in members:
+            base = orig.model if isinstance(orig, SkBaseTransformLearner) else orig
+            try:
+                if hasattr(base, "transform") and not isinstance(orig, SkBaseTransformLearner):
+                    parts.append(as2d(base.transform(Bn)))
+                else:
+                    parts.append(as2d(getattr(base, method)(Bn)))
+            except Exception as e:
+                member_refuses = type(base).__name__
+                break
+        try:
+            gotn = st.transform(Bn)
+        except Exception:
+            gotn = None
+        ctx.hit("stacking.batch_with_missing_value")
+        if member_refuses is not None and gotn is not None:
+            ctx.violation(K + "missing-value/answers-where-a-member-refuses", "a batch with a NaN: member %s refuses it "
+                          "when called directly, the stacking returns an array of shape %r" % (
+                              member_refuses, numpy.shape(gotn)), cfg=cfg)
+        elif member_refuses is None and gotn is None:
+            ctx.violation(K + "missing-value/refuses-where-all-members-answer", "a batch with a NaN is answered by every "
+                          "member and refused by the stacking", cfg=cfg)
+        elif gotn is not None:
+            expn = numpy.hstack(parts)
+            if numpy.shape(gotn) != expn.shape or not numpy.array_equal(numpy.asarray(gotn, dtype=float), expn.astype(float),
+                                                                      equal_nan=True):
+                ctx.violation(K + "transform-not-hstack/missing-value", "a batch with a NaN: transform is not the hstack "
+                              "of the members' outputs", cfg=cfg)
         # ---- a target given as one column (n, 1) - a valid multi-output target: members are trained as a direct fit
         # would train them (shapes of coef_ / intercept_ / predict included)
         if kind == "reg":
